@@ -5,6 +5,7 @@ package main
 import (
 	"fmt"
 	"go/types"
+	"sort"
 	"strings"
 
 	"golang.org/x/tools/go/ssa"
@@ -29,27 +30,77 @@ func ruleErrSorted(c *Ctx) []Obligation {
 	if sortFn == nil {
 		return []Obligation{undecided(R, "error sorter", "-", "yang.errorSort not found")}
 	}
-	for _, name := range []string{"yang.(*Modules).Process", "yang.(*Entry).GetErrors"} {
-		fn := c.MustFn(name)
+	// every exported function or method of the library that hands a list of errors to its caller
+	var apis []*ssa.Function
+	for _, fn := range c.Funcs {
+		if !c.isRepoFn(fn) || fn.Parent() != nil || fn.Object() == nil || !fn.Object().Exported() || fn.Blocks == nil {
+			continue
+		}
+		if recv := fn.Signature.Recv(); recv != nil {
+			if n := namedOf(recv.Type()); n == nil || !n.Obj().Exported() {
+				continue
+			}
+		}
+		res := fn.Signature.Results()
+		for i := 0; i < res.Len(); i++ {
+			if isErrorSlice(res.At(i).Type()) {
+				apis = append(apis, fn)
+				break
+			}
+		}
+	}
+	sort.Slice(apis, func(i, j int) bool { return c.FnName(apis[i]) < c.FnName(apis[j]) })
+	isAPI := map[*ssa.Function]bool{}
+	for _, fn := range apis {
+		isAPI[fn] = true
+	}
+	for _, fn := range apis {
+		name := c.FnName(fn)
 		n := 0
 		eachInstr(fn, func(in ssa.Instruction) {
 			r, ok2 := in.(*ssa.Return)
-			if !ok2 || len(r.Results) != 1 {
+			if !ok2 {
 				return
 			}
-			n++
-			con := fmt.Sprintf("%s: return #%d is sorted and de-duplicated", name, n)
-			v := r.Results[0]
-			if isNilConst(v) {
-				o := ok(R, con, c.InstrPos(r), "returns nil")
-				o.Trivial = true
-				obs = append(obs, o)
-				return
-			}
-			if call, okc := v.(*ssa.Call); okc && call.Call.StaticCallee() == sortFn {
-				obs = append(obs, ok(R, con, c.InstrPos(r), "return errorSort(…)"))
-			} else {
-				obs = append(obs, bad(R, con, c.InstrPos(r), "an error list is returned without passing through errorSort: order and duplicates depend on map iteration"))
+			for _, v := range r.Results {
+				if !isErrorSlice(v.Type()) {
+					continue
+				}
+				v = resolveSpill(v, r)
+				n++
+				con := fmt.Sprintf("%s: return #%d is sorted and de-duplicated", name, n)
+				if isNilConst(v) {
+					o := ok(R, con, c.InstrPos(r), "returns nil")
+					o.Trivial = true
+					obs = append(obs, o)
+					continue
+				}
+				if ex, isE := v.(*ssa.Extract); isE {
+					v = ex.Tuple
+				}
+				call, okc := v.(*ssa.Call)
+				// a list written on the spot with one element has no order
+				if sl, isSl := v.(*ssa.Slice); isSl {
+					if al, isA := sl.X.(*ssa.Alloc); isA {
+						if at, isArr := al.Type().Underlying().(*types.Pointer).Elem().Underlying().(*types.Array); isArr && at.Len() == 1 {
+							o := ok(R, con, c.InstrPos(r), "a list of one error")
+							obs = append(obs, o)
+							continue
+						}
+					}
+				}
+				switch {
+				case okc && call.Call.StaticCallee() == sortFn:
+					obs = append(obs, ok(R, con, c.InstrPos(r), "return errorSort(…)"))
+				case okc && call.Call.StaticCallee() != nil && isAPI[call.Call.StaticCallee()]:
+					obs = append(obs, ok(R, con, c.InstrPos(r), "hands on the list of "+c.FnName(call.Call.StaticCallee())+", which is held to the same"))
+				default:
+					if why, okj := jget("errSortedJustified", errSortedJustified, name); okj {
+						obs = append(obs, just(R, con, c.InstrPos(r), why))
+					} else {
+						obs = append(obs, bad(R, con, c.InstrPos(r), "an error list is returned without passing through errorSort: its order (and duplicates) follow the order of loading or of map iteration, not file, line and column"))
+					}
+				}
 			}
 		})
 	}
@@ -574,4 +625,10 @@ func (c *Ctx) errOnlyTested(v ssa.Value) string {
 		}
 	}
 	return ""
+}
+
+// errSortedJustified: exported functions that hand back a list of errors as it was collected, with the reason the
+// order cannot vary.
+var errSortedJustified = map[string]string{
+	"yang.(*Entry).ApplyDeviate": "the list is collected while walking Entry.Deviations and each deviation's statements, both slices in written order, and nothing in the walk ranges over a map (DEV.ORDER, ORDER.MAPRANGE): the order is the order of the text; Process, the caller in the library, sorts the whole list",
 }
